@@ -83,14 +83,69 @@ template <int E> static inline int prop_reader(const unsigned char* in, unsigned
 	for (size_t i = 0; i < 40; i++) if (i < ne && (uint16_t)s[i] != e[i]) return 0;
 	return 1;
 }
+// ---- h13c: a SHORT stream (one read) cut inside its last character: "a stream cut in the middle of a character is handled per the
+// error policy (mark or error) rather than by hanging or silent loss".  Stream = BOM? + 'a' + one scalar c (at least 2 bytes in
+// encoding E), cut after `cut` bytes of c's encoding (0 = c missing completely: a complete text; len = complete).
+//   complete text          -> "a" (+ c), loop ends with EndFile, no error
+//   cut inside c, ThrowError -> DecodeError is reported (and the loop does not spin)
+//   cut inside c, Skip       -> "a" + the error mark (default mark), EndFile
+// An odd number of bytes in a UTF-16 stream (cut inside a code unit) is excluded here: see the note in DESIGN 0.4.
+template <int E, int BOM> static inline int prop_cut(const unsigned char* in, unsigned char* out) {
+	const bool bom = BOM != 0; bool thr = (in[1] & 2) != 0;
+	uint32_t c = vh::rd<uint32_t>(in + 3) & 0x1FFFFF;
+	static unsigned char buf[16]; size_t n = 0;
+	for (size_t i = 0; i < 16; i++) buf[i] = 0;
+	if (bom) n += put_bom(buf, E);
+	n += put_scalar(buf + n, 'a', E);
+	unsigned char enc[4]; size_t len = put_scalar(enc, c, E);
+	size_t cut = in[2] % 5; if (cut > len) cut = len;
+	for (size_t i = 0; i < 4; i++) if (i < cut) buf[n + i] = enc[i];
+	n += cut;
+	vh::MemIStream is(reinterpret_cast<const char*>(buf), n);
+	std::u16string s; s.reserve(24); verif_nogrow(&s);
+	CEncodedStreamReader<char16_t, 32> rd(is, thr ? UtfEncodingErrorPolicy::ThrowError : UtfEncodingErrorPolicy::Skip);
+	verif_symbolic_phase();
+	int rounds = 0; bool ended = false; bool err = false;
+	for (; rounds < 3; rounds++) {
+		auto r = rd.ReadChunk(s);
+		if (r == EncodedStreamReadResult::EndFile) { ended = true; break; }
+		if (r == EncodedStreamReadResult::DecodeError) { err = true; break; }
+	}
+	out[0] = (unsigned char)rounds; out[1] = ended; out[2] = err; out[3] = (unsigned char)s.size(); out[4] = (unsigned char)rd.GetSourceUtfType();
+	uint16_t e[4]; size_t ne = 0; e[ne++] = 'a';
+	if (cut == len) ne += ref::enc_utf16(c, e + ne);
+	const bool partial = cut != 0 && cut != len;
+	if (partial && thr) return err && !ended && s.size() >= 1 && s[0] == u'a';
+	if (!ended || err) return 0;
+	if (partial) { if (s.size() < 2) return 0; return s[0] == u'a'; }              // "a" + a non-empty mark
+	if (s.size() != ne) return 0;
+	for (size_t i = 0; i < 4; i++) if (i < ne && (uint16_t)s[i] != e[i]) return 0;
+	return 1;
+}
+VH_EXPORT int va_h13c_8(const unsigned char* in) { uint32_t c = vh::rd<uint32_t>(in + 3) & 0x1FFFFF; return ref::is_scalar(c) && c >= 0x80; }
+VH_EXPORT int va_h13c_16(const unsigned char* in) {            // whole code units only (even cut), c outside the BMP so that a cut after one unit is inside the character
+	uint32_t c = vh::rd<uint32_t>(in + 3) & 0x1FFFFF; return ref::is_scalar(c) && c >= 0x10000 && (in[2] % 5) % 2 == 0; }
+VH_EXPORT int vp_h13c_cut8(const unsigned char* in, unsigned char* out) { return prop_cut<0, 1>(in, out); }
+VH_EXPORT int vp_h13c_cut8n(const unsigned char* in, unsigned char* out) { return prop_cut<0, 0>(in, out); }
+VH_EXPORT int vp_h13c_cut16le(const unsigned char* in, unsigned char* out) { return prop_cut<1, 1>(in, out); }
+VH_EXPORT int vp_h13c_cut16be(const unsigned char* in, unsigned char* out) { return prop_cut<2, 1>(in, out); }
 VH_EXPORT int vp_h13b_utf8(const unsigned char* in, unsigned char* out) { return prop_reader<0>(in, out); }
 VH_EXPORT int vp_h13b_utf16le(const unsigned char* in, unsigned char* out) { return prop_reader<1>(in, out); }
 VH_EXPORT int vp_h13b_utf16be(const unsigned char* in, unsigned char* out) { return prop_reader<2>(in, out); }
 //@ OBL {"name": "h13a_detect", "prop": "vp_h13a_detect", "assume": "va_h13a", "in": 16, "out": 8, "unwind": 24, "fs": 32, "cap_s": 900, "bounds": "5 encodings x BOM on/off x texts of 1..3 arbitrary Unicode scalars (no-BOM texts start with a non-NUL ASCII character and contain no U+0000)", "desc": "DetectEncoding(string_view): detected encoding and data offset"}
-//@ OBL {"name": "h13b_utf8", "family": "h13b", "prop": "vp_h13b_utf8", "assume": "va_h13b", "in": 12, "out": 8, "unwind": 8, "unwind_models": 40, "unwind_fn": {"^verif_stream_copy$": 40, "vp_h13b": 44, "Utf8.*Decode": 40}, "fs": 0, "cap_s": 3600, "bounds": "UTF-8 stream, BOM on/off, 13..21 ASCII filler characters then 2 arbitrary non-NUL scalars (every alignment of a multi-byte character against the 32-byte chunk boundary)", "desc": "CEncodedStreamReader<char16_t,32>: text == reference transcoding, encoding detected, loop ends with EndFile", "tier": "thorough"}
-//@ OBL {"name": "h13b_utf16le", "family": "h13b", "prop": "vp_h13b_utf16le", "assume": "va_h13b", "in": 12, "out": 8, "unwind": 8, "unwind_models": 40, "unwind_fn": {"^verif_stream_copy$": 40, "vp_h13b": 44, "Utf16.*Decode|Utf16.*Encode": 40}, "fs": 0, "cap_s": 3600, "bounds": "UTF-16LE stream, BOM on/off, filler then 2 arbitrary non-NUL scalars around the chunk boundary", "desc": "CEncodedStreamReader<char16_t,32> on UTF-16LE", "tier": "thorough"}
-//@ OBL {"name": "h13b_utf16be", "family": "h13b", "prop": "vp_h13b_utf16be", "assume": "va_h13b", "in": 12, "out": 8, "unwind": 8, "unwind_models": 40, "unwind_fn": {"^verif_stream_copy$": 40, "vp_h13b": 44, "Utf16.*Decode|Utf16.*Encode|Reverse": 40}, "fs": 0, "cap_s": 3600, "bounds": "UTF-16BE stream, BOM on/off, filler then 2 arbitrary non-NUL scalars around the chunk boundary", "desc": "CEncodedStreamReader<char16_t,32> on UTF-16BE", "tier": "thorough"}
+//@ OBL {"name": "h13c_cut8", "prop": "vp_h13c_cut8", "assume": "va_h13c_8", "in": 12, "out": 8, "unwind": 8, "unwind_models": 20, "unwind_fn": {"^verif_stream_copy$": 20, "vp_h13c|prop_cut": 18}, "fs": 32, "cap_s": 3600, "mem_gb": 40, "tier": "open", "backends": ["default", "kissat"], "bounds": "UTF-8 stream BOM + 'a' + one multi-byte scalar cut at every byte 0..len, both policies, target char16_t, chunk 32", "desc": "CEncodedStreamReader on a stream that ends inside a character: DecodeError (ThrowError) or mark (Skip), the read loop ends"}
+//@ OBL {"name": "h13c_cut8n", "prop": "vp_h13c_cut8n", "assume": "va_h13c_8", "in": 12, "out": 8, "unwind": 8, "unwind_models": 20, "unwind_fn": {"^verif_stream_copy$": 20, "vp_h13c|prop_cut": 18}, "fs": 32, "cap_s": 3600, "mem_gb": 40, "tier": "open", "backends": ["default", "kissat"], "bounds": "UTF-8 stream without BOM: 'a' + one multi-byte scalar cut at every byte 0..len, both policies, target char16_t, chunk 32", "desc": "CEncodedStreamReader on a stream that ends inside a character: DecodeError (ThrowError) or mark (Skip), the read loop ends"}
+//@ OBL {"name": "h13c_cut16le", "prop": "vp_h13c_cut16le", "assume": "va_h13c_16", "in": 12, "out": 8, "unwind": 8, "unwind_models": 20, "unwind_fn": {"^verif_stream_copy$": 20, "vp_h13c|prop_cut": 18}, "fs": 32, "cap_s": 3600, "mem_gb": 40, "tier": "open", "backends": ["default", "kissat"], "bounds": "UTF-16LE stream BOM + 'a' + one supplementary scalar cut after 0, 1 or 2 code units, both policies", "desc": "same for UTF-16LE (lone high surrogate at the end of the stream)"}
+//@ OBL {"name": "h13c_cut16be", "prop": "vp_h13c_cut16be", "assume": "va_h13c_16", "in": 12, "out": 8, "unwind": 8, "unwind_models": 20, "unwind_fn": {"^verif_stream_copy$": 20, "vp_h13c|prop_cut": 18}, "fs": 32, "cap_s": 3600, "mem_gb": 40, "tier": "open", "backends": ["default", "kissat"], "bounds": "UTF-16BE stream, same", "desc": "same for UTF-16BE"}
+//@ OBL {"name": "h13b_utf8", "family": "h13b", "prop": "vp_h13b_utf8", "assume": "va_h13b", "in": 12, "out": 8, "unwind": 8, "unwind_models": 40, "unwind_fn": {"^verif_stream_copy$": 40, "vp_h13b": 44, "Utf8.*Decode": 40}, "fs": 0, "cap_s": 3600, "bounds": "UTF-8 stream, BOM on/off, 13..21 ASCII filler characters then 2 arbitrary non-NUL scalars (every alignment of a multi-byte character against the 32-byte chunk boundary)", "desc": "CEncodedStreamReader<char16_t,32>: text == reference transcoding, encoding detected, loop ends with EndFile", "tier": "open"}
+//@ OBL {"name": "h13b_utf16le", "family": "h13b", "prop": "vp_h13b_utf16le", "assume": "va_h13b", "in": 12, "out": 8, "unwind": 8, "unwind_models": 40, "unwind_fn": {"^verif_stream_copy$": 40, "vp_h13b": 44, "Utf16.*Decode|Utf16.*Encode": 40}, "fs": 0, "cap_s": 3600, "bounds": "UTF-16LE stream, BOM on/off, filler then 2 arbitrary non-NUL scalars around the chunk boundary", "desc": "CEncodedStreamReader<char16_t,32> on UTF-16LE", "tier": "open"}
+//@ OBL {"name": "h13b_utf16be", "family": "h13b", "prop": "vp_h13b_utf16be", "assume": "va_h13b", "in": 12, "out": 8, "unwind": 8, "unwind_models": 40, "unwind_fn": {"^verif_stream_copy$": 40, "vp_h13b": 44, "Utf16.*Decode|Utf16.*Encode|Reverse": 40}, "fs": 0, "cap_s": 3600, "bounds": "UTF-16BE stream, BOM on/off, filler then 2 arbitrary non-NUL scalars around the chunk boundary", "desc": "CEncodedStreamReader<char16_t,32> on UTF-16BE", "tier": "open"}
 //@ VEC * 000102410000004200000043000000
 //@ VEC * 0100014100000000000000000000
 //@ VEC * 030001410000000000000000
 //@ VEC * 0001054100000ac200000
+//@ VEC h13c_cut8n 000302e9000000000000000000
+//@ VEC h13c_cut8 00020120ac0000000000000000
+//@ VEC h13c_cut8 0001024af60100000000000000
+//@ VEC h13c_cut16le 0003024af60100000000000000
+//@ VEC h13c_cut16be 0000044af60100000000000000
